@@ -161,6 +161,12 @@ def analyse(sc, res):
     # a back closes what is open and runs earlier steps again: a generator it interrupts never opens its remaining groups
     had_back = any(sc["ops"][st["op"]][0] == "act" and sc["ops"][st["op"]][1] == "back" and any(o.get("k") == "res" and o.get("ok") for o in st["obs"])
                    for st in res.get("steps", []) if st["op"] < len(sc["ops"]))
+    sched_obs = []
+    dumps_by_op, op_pos = [], {}
+    for pos, (op, o) in enumerate(events):
+        op_pos[op] = pos
+        if o.get("k") == "dump" and o.get("pid") == "p1" and not o.get("absent"):
+            dumps_by_op.append((op, o))
     # ---- generated acts
     msgs = [(pos, o) for pos, (op, o) in enumerate(events) if o.get("k") == "gen"]
     by_nid = defaultdict(list)
@@ -221,6 +227,20 @@ def analyse(sc, res):
                     if not dterm or min(dterm) > tdone[0]:
                         bad.append(("generator-completed-early", f"generator {a['id']} completed while generated task {tasks[d]['nid']} ({tasks[d]['state']}) was not terminal"))
                         break
+            # the groups in progress at every quiescent point, for the abstract scheduling `Generate.Gen` evaluated by the Lean driver
+            if len(inst) == 1 and not had_back:
+                blocks = sorted([c for c in desc if news[c]["level"] == news[gt["tid"]]["level"] + 1 and tasks[c].get("uses") == "acts.core.block"
+                                 and c not in hook_tids], key=lambda c: order[c])
+                for op_i, o in dumps_by_op:
+                    if order[gt["tid"]] > op_pos.get(op_i, -1):
+                        continue
+                    live = {t["tid"]: t["state"] for t in o["tasks"]}
+                    if live.get(gt["tid"]) in (None, "none", "ready"):
+                        continue
+                    fin = [k for k, b in enumerate(blocks) if live.get(b) in TERMINAL]
+                    act = [k for k, b in enumerate(blocks) if b in live and live[b] not in TERMINAL]
+                    sched_obs.append({"gen": a["id"], "op": op_i, "seq": a["uses"] == SEQ, "n": len(a["params"]["in"]), "finished": fin, "active": act,
+                                      "complete": live.get(gt["tid"]) in DONE})
             # top-level shape: parallel opens every group at once, sequence one after another in list order
             first = a["params"]["acts"][0]
             if first["uses"] not in (PAR, SEQ):
@@ -324,6 +344,7 @@ def analyse(sc, res):
     for key in sc["hooks"]:
         stats["fires"] += fires[key]
     stats["_hook_reqs"] = hook_reqs
+    stats["_sched_obs"] = sched_obs
     stats["_fires"] = fires
 
     # ---- push
@@ -396,6 +417,24 @@ def judge(ctx, scs, results):
             where.append((len(out), key))
             hook_reqs.append(rq)
         out.append((bad, stats))
+    # scheduling of the groups: engine vs `Gen` (active groups and completion after the finished groups)
+    sreqs, swhere = [], []
+    for k, (bad, stats) in enumerate(out):
+        for ob in stats.pop("_sched_obs", []):
+            sreqs.append({"cmd": "c16.sched", "seq": ob["seq"], "n": ob["n"], "finish": sorted(ob["finished"])})
+            swhere.append((k, ob))
+    sans = ctx.driver(sreqs, tag="ds") if sreqs else []
+    for (k, ob), an in zip(swhere, sans):
+        bad, stats = out[k]
+        stats["sched_points"] = stats.get("sched_points", 0) + 1
+        if bad or not isinstance(an, dict) or not an.get("states"):
+            continue
+        last = an["states"][-1]
+        # quiescent point: the engine has opened everything that may be open
+        if sorted(last["active"]) != sorted(ob["active"]) and not ob["complete"]:
+            bad.append((f"groups-in-progress|{'sequence' if ob['seq'] else 'parallel'}", f"generator {ob['gen']} after op {ob['op']}: groups {ob['finished']} of {ob['n']} finished; in progress {ob['active']}, the scheduling model says {last['active']}"))
+        elif ob["complete"] and not last["complete"]:
+            bad.append(("generator-completed-early", f"generator {ob['gen']} after op {ob['op']} is complete with groups {ob['finished']} of {ob['n']} finished"))
     verdicts = ctx.driver(hook_reqs, tag="dh") if hook_reqs else []
     for (k, key), vd in zip(where, verdicts):
         bad, stats = out[k]
